@@ -613,12 +613,12 @@ def clause_pool_model(facts, rep, tier):
     fns = {}
     pol = {}
     for f in facts.functions:
-        if f.cls_qn == POOL and f.short in ('Malloc', 'Realloc', 'AddChunk', 'GetChunkBuffer', 'Clear', 'Size', 'Capacity') and f.short not in fns:
-            fns[f.short] = f
+        if f.cls_qn == POOL and f.short in ('Malloc', 'Realloc', 'AddChunk', 'Clear', 'Size', 'Capacity') and f.short not in fns:
+            fns[f.short] = f        # the allocator interface (+ AddChunk); private helpers are interpreted under whatever name they have
         if f.short == 'ChunkSize' and (f.cls_qn or '').endswith('ChunkPolicy'):
             pol[f.cls_qn.split('::')[-1]] = f
-    rep.require(len(fns) == 7 and pol, 'C16: pool functions found: %s, policies %s' % (sorted(fns), sorted(pol)))
-    if len(fns) != 7 or not pol:
+    rep.require(len(fns) == 6 and pol, 'C16: pool functions found: %s, policies %s' % (sorted(fns), sorted(pol)))
+    if len(fns) != 6 or not pol:
         return
     for f in fns.values():
         rep.fn(f)
@@ -859,6 +859,11 @@ def run(rep, tier):
         clause_pool_model(get_facts('K1'), rep, tier)
     except AnalysisBroken as ex:
         rep.broken.append(str(ex))
+    # the shape rules on the pool are decided together with the exploration that interprets the same functions
+    for r_ in ('E2.bump-in-chunk', 'E2.bump-aligned', 'E2.realloc', 'E2.zero-size', 'E5.align-buffer'):
+        rep.corroborate(r_, 'E6.pool')
+    for pre_ in ('C16.a:', 'C16.b:', 'C16.c:', 'C16.d:', 'C16:'):
+        rep.corroborate_floor(pre_, 'E6.pool')
     rep.trust('clang 14 front end')
     rep.assumptions += [
         'decides alignment data flow, bump-inside-chunk dominance, ChunkSize >= n, Realloc guards, zero-size early return and refcount pairing',
